@@ -167,6 +167,12 @@ def evaluate(prop, cases):
     outs = run_driver(lines)
     res = []
     for case, impl, out in zip(cases, impls, outs):
+        if "err" in out and set(impl.keys()) == {"exc"}:
+            # the implementation raised while it was being observed (not one of the declared errors a harness module records
+            # itself): on this input the property is not met - the code crashes where it should answer
+            res.append({"case": case, "impl": impl, "model": None, "spec": "fail: the implementation raised while being observed: " + impl["exc"],
+                        "k_ok": False, "s_ok": False})
+            continue
         if "err" in out:
             raise Infra("driver rejected case %s: %s" % (canon(case)[:300], out["err"]))
         k_ok = canon(prop.project(impl)) == canon(out["m"])
